@@ -322,6 +322,49 @@ bool dispatch_kind(std::string const& kind, unsigned w, std::vector<Op> const& o
 
 #define WIDTHS(X) X(1) X(7) X(8) X(9) X(31) X(32) X(33) X(63) X(64) X(65) X(127) X(128) X(129)
 
+// The same classes under constant evaluation (count() then runs detail::popcount_fallback):
+// a fixed script per width, checked by the compiler.
+template <typename T, std::size_t B>
+constexpr bool ct_script()
+{
+    T b{};
+    if (!b.none() || b.any() || b.all() || b.count() != 0) { return false; }
+    b.set();
+    if (!b.all() || b.count() != B) { return false; }
+    b.flip();
+    if (!b.none()) { return false; }
+    b.flip();   // all ones again, this time through flip(): the padding must have been re-masked
+    if (!b.all() || b.count() != B) { return false; }
+    T c(0x8000000000000001ULL);
+    auto const expect = B >= 64 ? std::size_t{2} : std::size_t{1};
+    if (c.count() != expect || !c[0] || c.all() != (B == 1)) { return false; }
+    c ^= b;     // complement
+    if (c.count() != B - expect || c == b) { return false; }
+    c[B - 1] = true;
+    c[0].flip();
+    c |= b;
+    return c == b && c.all() && (c & b).count() == B;
+}
+template <std::size_t B>
+constexpr bool ct_strings()
+{
+    etl::bitset<B> s("10");                       // B == 1: only the first character is used
+    if (s.count() != 1 || !s.test(B >= 2 ? 1 : 0)) { return false; }
+    auto const t = (~s).template to_string<B>('o', 'x');
+    if (t.size() != B || t[B - 1] != (B >= 2 ? 'x' : 'o')) { return false; }
+    if constexpr (B <= 64) {
+        if (s.to_ullong() != (B >= 2 ? 2U : 1U)) { return false; }
+    }
+    return true;
+}
+#define X(Bv)                                                                                                        \
+    static_assert(ct_script<etl::bitset<Bv>, Bv>());                                                                 \
+    static_assert(ct_script<etl::basic_bitset<Bv, std::uint8_t>, Bv>());                                             \
+    static_assert(ct_script<etl::basic_bitset<Bv, std::uint32_t>, Bv>());                                            \
+    static_assert(ct_strings<Bv>());
+WIDTHS(X)
+#undef X
+
 template <std::size_t B>
 void run_strbad(Op const& o, Out& impl)
 {
